@@ -249,7 +249,11 @@ func (p *parser) parseExpression(rbp int) Node {
 	}
 
 	t := p.token
-	p.advance(false)
+	// A forward slash directly after an opening bracket can only
+	// begin a regular expression, e.g. ( /ab+/ ) or [/a/, /b/].
+	// After any other prefix token (a complete operand such as
+	// a name or a literal) it is the division operator.
+	p.advance(t.Type == typeParenOpen || t.Type == typeBracketOpen)
 
 	nud := p.lookupNud(t.Type)
 	if nud == nil {
